@@ -83,7 +83,7 @@ class Session:
                 args.append(wl.Arg.Object(wl.UnresolvedObject(oid, alive[oid]), False))
             elif k < 0.9: args.append(wl.Arg.Null())
             else: args.append(wl.Arg.Fd(rnd.randint(3, 9)))
-        name = rnd.choice(['commit', 'done', 'attach', 'frame', 'motion', 'configure'])
+        name = rnd.choice(['commit', 'done', 'attach', 'frame', 'motion', 'configure', 'destroy'])
         return wl.Message(self.t, wl.UnresolvedObject(tid, alive[tid]), rnd.random() < 0.5, name, tuple(args))
 
     def random_message(self, cid):
